@@ -1,3 +1,2 @@
 package main
 
-func runCodec(path string) { panic("not built yet") }
